@@ -33,10 +33,13 @@ CHECKS["C09"] = dict(
     "(possibly empty) quantifier domains: sat_negF, sat_nnf, sat_dnf, sat_andF, sat_orF, sat_feq, sat_split*, and totality (negF_total, "
     "nnf_total, dnf_total: no raise on well-formed NNF input of any arity). Tie: generated ASTs are built as real isla Formula objects and every "
     "rewrite result is compared with the model's (flattened/sorted canonical form); on disagreement a semantic search under sampled finite "
-    "interpretations looks for a verdict difference.",
+    "interpretations looks for a verdict difference. Bound-variable renaming: alpha-equivalence (equal nameless forms) is proved to imply equal "
+    "meaning under every interpretation and environment (rename_alphaEq_sound over named formulas with tree / match-expression / numeric binders); "
+    "every result of the real ensure_unique_bound_variables is passed, with its input, through that checker.",
     design_ref="DESIGN.md section 7 C09",
     note="SMT atoms opaque: assumes z3_push_in_negations(s, True) denotes not-s (sampled against Z3 each run). "
-    "ensure_unique_bound_variables (renaming) has no theorem yet (partial). Hash/equality inconsistencies of Python objects are not modelled.",
+    "The renaming procedure itself (fresh-name generation over a shared mutable set) is not modelled: validated per result by the proved "
+    "alpha-equivalence checker; known finding for inputs with shadowing. Hash/equality inconsistencies of Python objects are not modelled.",
     technique="Lean 4 theorems (Sat-preservation for all interpretations, totality) + differential correspondence on generated formula ASTs",
 )
 
@@ -192,6 +195,42 @@ CHECKS["C01"] = dict(
     "is C07/C08). Numeric quantifiers: conclusive only within the bounded search (else counted as undecided). Solver timeouts / the 45 s wall "
     "guard give no verdict.",
     technique="Lean 4 theorem about a solution certifier (soundness w.r.t. derivation-tree validity and the Sat specification) + certification of every tree returned by the real solver",
+)
+
+CHECKS["C02"] = dict(
+    category="proof",
+    text="The exit logic of ISLaSolver.solve() (order of the queue / timeout / pending-solution tests, start_time taken once, draining after the "
+    "loop) is modelled as a state machine over the loop's events (Model/SolveLoop.lean); what the 4000-line search does between two exits is "
+    "abstracted into these events. Theorems for EVERY event stream, initial state and call sequence: StopIteration only from an exhausted state "
+    "and then forever (stop_exhausted, exhausted_stop, stop_sticky), TimeoutError forever once raised under a monotone clock (timeout_sticky), "
+    "no TimeoutError without a configured limit, every returned tree was found exactly once and in order (trees_sublist), one outcome per call. "
+    "Tie: real call sequences (documented + generated problems, settings grid, timeouts under a controlled clock and in real time) are traced "
+    "without source hooks (recording proxies for isla.solver's time / heapq globals, wrapper of process_new_states) and replayed through the "
+    "model, which must reproduce every outcome; independently, every exception class escaping solve() and every non-sticky sequence is a "
+    "failing input of the property itself.",
+    design_ref="DESIGN.md section 7 C02",
+    note="PARTIAL: 'never raises any other exception' is a theorem only for the modelled exit logic (the model's outcome type); for the solver "
+    "body it is explored: the exception classes escaping solve() on the explored problems. Ten crash sites of the unchanged solver are listed "
+    "as known findings (deliberate diagnostics, assertions deep in the search, assertions of third-party packages), four were repaired. "
+    "Constructor exceptions are counted, not judged. Problems stopped by the wall guard give no verdict.",
+    technique="Lean 4 theorems about a state-machine model of the solve() loop (stickiness, for all event streams) + trace correspondence without hooks + exploration of escaping exception classes",
+)
+
+CHECKS["C13"] = dict(
+    category="proof",
+    text="insert_tree and its three methods are graph searches and are not modelled. Proved: the result checker through which EVERY returned tree "
+    "is passed is sound for the four clauses of the property, for all grammars and trees (insertCheck_sound: derivation tree of the grammar, "
+    "same root symbol, every (id, label) of the host present, the inserted tree embedded - identities and children wherever it is expanded, "
+    "open leaves as holes); and the generic facts the methods rely on (valid_replace: replacing a same-symbol valid subtree keeps validity and "
+    "root; replace_keeps_other_nodes). Tie: insert_tree on generated (grammar, host open/closed or a subtree position, inserted tree closed/"
+    "partially open, each of the 7 method combinations, max_num_solutions) with identities from ISLa's own counter; candidates seen by "
+    "insert_tree's own validity assertion are judged by the verified checker as well.",
+    design_ref="DESIGN.md section 7 C13",
+    note="Assurance for the insertion procedures is per explored output (translation-validation style). 'Contains the inserted tree' is read as "
+    "an identity-preserving embedding with the inserted tree's open leaves as holes (insertion plugs the host's own subtree into them). An "
+    "AssertionError of insert_tree's tree_is_valid assertion on a candidate the verified checker accepts is a false negative of the third-party "
+    "grammar_graph validator: counted and noted, not reported.",
+    technique="Lean 4 theorems about a result checker and the replacement lemmas + certification of every tree returned by the real insert_tree",
 )
 
 NOT_APPLICABLE = {
